@@ -23,16 +23,18 @@ REPO = os.environ.get("AOVERIF_REPO", "/repo")
 HERE = os.path.dirname(os.path.abspath(__file__))
 VERIF = os.path.dirname(HERE)
 
-MODULES = [
-    "aotools/fouriertransform.py", "aotools/interpolation.py", "aotools/opticalpropagation.py",
-    "aotools/astronomy/_astronomy.py", "aotools/functions/_functions.py", "aotools/functions/karhunenLoeve.py",
-    "aotools/functions/pupil.py", "aotools/functions/zernike.py", "aotools/image_processing/centroiders.py",
-    "aotools/image_processing/contrast.py", "aotools/image_processing/psf.py",
-    "aotools/turbulence/atmos_conversions.py", "aotools/turbulence/infinitephasescreen.py",
-    "aotools/turbulence/phasescreen.py", "aotools/turbulence/profile_compression.py",
-    "aotools/turbulence/slopecovariance.py", "aotools/turbulence/temporal_ps.py", "aotools/turbulence/turb.py",
-    "aotools/wfs/wfslib.py",
-]
+def list_modules(repo, top="aotools"):
+    """every module of the package (a new file is translated automatically); package __init__ files and the generated
+    version helper hold no library functions"""
+    out = []
+    for root, _, files in os.walk(os.path.join(repo, top)):
+        for f in sorted(files):
+            if f.endswith(".py") and f not in ("__init__.py", "_version.py"):
+                out.append(os.path.relpath(os.path.join(root, f), repo))
+    return sorted(out)
+
+
+MODULES = list_modules(REPO)
 
 # calls whose result may share memory with their first argument / receiver
 VIEW_FUNCS = {"asarray", "asanyarray", "ascontiguousarray", "asfortranarray", "atleast_1d", "atleast_2d", "atleast_3d",
@@ -50,8 +52,25 @@ FRESH_METHODS = {"copy", "astype", "sum", "mean", "std", "var", "max", "min", "a
                  "tobytes", "byteswap", "newbyteorder", "map", "imap", "apply", "apply_async", "close", "startswith",
                  "lower", "upper", "strip", "split"}
 INPLACE_METHODS = {"sort", "fill", "resize", "put", "itemset", "setflags", "partition", "setfield", "shuffle",
-                   "append", "extend", "insert", "pop", "remove", "clear", "update", "reverse", "setdefault"}
+                   "append", "extend", "insert", "pop", "remove", "clear", "update", "reverse", "setdefault",
+                   "__setitem__", "__iadd__", "__isub__", "__imul__", "__itruediv__", "__ifloordiv__", "__ipow__",
+                   "__imod__", "__iand__", "__ior__", "__ixor__", "__delitem__", "byteswap"}
 INPLACE_FUNCS = {"copyto", "put", "place", "putmask", "fill_diagonal", "put_along_axis", "shuffle"}
+# NumPy functions whose positional argument number `arity` (0-based) is the OUTPUT array
+BINARY_UFUNCS = {"add", "subtract", "multiply", "divide", "true_divide", "floor_divide", "power", "float_power", "maximum",
+                 "minimum", "fmax", "fmin", "mod", "fmod", "remainder", "arctan2", "hypot", "logical_and", "logical_or",
+                 "logical_xor", "bitwise_and", "bitwise_or", "bitwise_xor", "greater", "greater_equal", "less", "less_equal",
+                 "equal", "not_equal", "matmul", "dot", "copysign", "ldexp", "heaviside"}
+UNARY_UFUNCS = {"sqrt", "exp", "exp2", "expm1", "log", "log2", "log10", "log1p", "abs", "absolute", "fabs", "negative",
+                "positive", "sin", "cos", "tan", "arcsin", "arccos", "arctan", "sinh", "cosh", "tanh", "conj", "conjugate",
+                "square", "floor", "ceil", "rint", "trunc", "sign", "reciprocal", "isfinite", "isnan", "isinf", "logical_not",
+                "invert", "cbrt", "deg2rad", "rad2deg", "angle", "real_if_close"}
+OUT_POSITION = {"clip": 3, "round": 2, "around": 2, "round_": 2, "cumsum": 3, "cumprod": 3, "sum": 3, "prod": 3, "mean": 3,
+                "take": 3, "choose": 2, "compress": 3}
+# calls that return a view of their first argument when given copy=<anything but literal True>
+COPY_KW_VIEWS = {"array", "astype", "asarray", "asanyarray", "require", "nan_to_num"}
+LIBRARY_ROOTS = {"numpy", "np", "scipy", "math", "cmath", "numba", "multiprocessing", "time", "functools", "itertools",
+                 "warnings", "os", "sys", "fft", "linalg", "special", "interpolate", "optimize", "ndimage", "signal", "copy"}
 GLOBAL_RNG_OK = {"default_rng", "Generator", "RandomState", "SeedSequence", "PCG64", "MT19937", "BitGenerator"}
 
 
@@ -62,6 +81,7 @@ class Ctx:
         self.params = []
         self.notes = []
         self.globals_declared = set()
+        self.local_imports = {}
 
     def var(self, name):
         if name not in self.vars:
@@ -97,8 +117,22 @@ class Translator:
 
     def sources(self, e, cx, pre, pfx, depth):
         """variables whose memory the value of e may share; may append statements (inlined calls) to `pre`"""
-        if e is None or isinstance(e, (ast.Constant, ast.Compare, ast.BoolOp, ast.JoinedStr, ast.Lambda)):
+        if e is None or isinstance(e, (ast.Constant, ast.JoinedStr)):
             return []
+        if isinstance(e, ast.Compare):
+            for sub in [e.left] + list(e.comparators):      # evaluated for their effects; the result is a fresh boolean
+                self.sources(sub, cx, pre, pfx, depth)
+            return []
+        if isinstance(e, ast.BoolOp):
+            out = []
+            for sub in e.values:                             # `a and b` / `a or b` evaluate to one of their operands
+                out += self.sources(sub, cx, pre, pfx, depth)
+            return out
+        if isinstance(e, ast.Lambda):
+            # conservatively: the body is assumed to run (its writes to captured variables count at the definition site)
+            for a in e.args.args:
+                cx.var(pfx + a.arg)
+            return self.sources(e.body, cx, pre, pfx, depth)
         if isinstance(e, ast.Name):
             return [cx.var(pfx + e.id)] if (pfx + e.id) in cx.vars else []
         if isinstance(e, ast.Attribute):
@@ -135,7 +169,16 @@ class Translator:
         if isinstance(e, (ast.ListComp, ast.GeneratorExp, ast.SetComp, ast.DictComp)):
             out = []
             for g in e.generators:
-                out += self.sources(g.iter, cx, pre, pfx, depth)
+                src = self.sources(g.iter, cx, pre, pfx, depth)
+                out += src
+                body = []
+                self.target_write(g.target, cx, body, pfx, src, depth)      # the loop variable aliases the iterable's items
+                pre += body
+                for c in g.ifs:
+                    self.sources(c, cx, pre, pfx, depth)
+            elts = [e.key, e.value] if isinstance(e, ast.DictComp) else [e.elt]
+            for x in elts:
+                out += self.sources(x, cx, pre, pfx, depth)
             return out
         if isinstance(e, ast.Call):
             return self.call(e, cx, pre, pfx, depth)
@@ -157,6 +200,50 @@ class Translator:
                 if b is not None:
                     pre.append(("write", cx.var(pfx + b)))
         name = f.attr if isinstance(f, ast.Attribute) else (f.id if isinstance(f, ast.Name) else None)
+        for k in e.keywords:
+            if k.arg in ("output", "a_out"):
+                b = self.base_name(k.value)
+                if b is not None:
+                    pre.append(("write", cx.var(pfx + b)))
+        # positional output arguments of NumPy functions, ufunc.at / ufunc.reduceat-style in-place methods
+        libcall = (isinstance(f, ast.Name) and self.imported.get(cx.module, {}).get(f.id, "").split(".")[0] in LIBRARY_ROOTS) or \
+                  (isinstance(f, ast.Attribute) and self.base_name(f.value) in LIBRARY_ROOTS)
+        if libcall:
+            pos = 2 if name in BINARY_UFUNCS else 1 if name in UNARY_UFUNCS else OUT_POSITION.get(name)
+            if pos is not None and len(e.args) > pos:
+                b = self.base_name(e.args[pos])
+                if b is not None:
+                    pre.append(("write", cx.var(pfx + b)))
+        if isinstance(f, ast.Attribute) and name == "at" and isinstance(f.value, ast.Attribute) and e.args:
+            b = self.base_name(e.args[0])                    # numpy.add.at(x, idx, v) modifies x
+            if b is not None:
+                pre.append(("write", cx.var(pfx + b)))
+        # names imported from a process-global random module; module-level generator objects
+        if isinstance(f, ast.Name):
+            src_mod = self.imported.get(cx.module, {}).get(f.id, "")
+            if (pfx + f.id) not in cx.vars and f.id not in cx.local_imports and \
+                    (src_mod in ("numpy.random", "random") and f.id not in GLOBAL_RNG_OK and f.id not in ("Random", "SystemRandom")):
+                pre.append(("globalWrite",))
+            if f.id in cx.local_imports and cx.local_imports[f.id] in ("numpy.random", "random") and f.id not in GLOBAL_RNG_OK:
+                pre.append(("globalWrite",))
+        if isinstance(f, ast.Attribute):
+            b = self.base_name(f.value)
+            if b is not None and (pfx + b) not in cx.vars and b not in cx.vars and b in self.module_objects.get(cx.module, ()):
+                pre.append(("globalWrite",))                 # any method call on a module-level generator / mutable object
+        # copy=<not literally True> turns array / astype / asarray / require / nan_to_num into views of their argument
+        if name in COPY_KW_VIEWS:
+            ck = [k for k in e.keywords if k.arg == "copy"]
+            nocopy = ck and not (isinstance(ck[0].value, ast.Constant) and ck[0].value.value is True)
+            if name in ("asarray", "asanyarray", "require") or nocopy:
+                if name == "nan_to_num" and nocopy and e.args:
+                    b = self.base_name(e.args[0])
+                    if b is not None:
+                        pre.append(("write", cx.var(pfx + b)))
+                if isinstance(f, ast.Attribute) and not libcall:       # x.astype(..., copy=False)
+                    return self.sources(f.value, cx, pre, pfx, depth)
+                return [s_ for a in argsrc[:1] for s_ in a]
+            if name in ("array", "astype", "nan_to_num"):
+                return []
         # process-global random generators
         if isinstance(f, ast.Attribute):
             chain = []
@@ -181,7 +268,10 @@ class Translator:
         if isinstance(f, ast.Attribute) and name in INPLACE_METHODS:
             b = self.base_name(f.value)
             if b is not None and b not in ("numpy", "np", "scipy", "random", "math"):
-                pre.append(("write", cx.var(pfx + b)))
+                nm = b if b.startswith("self.") else pfx + b
+                if nm not in cx.vars and b in self.module_names.get(cx.module, ()):
+                    pre.append(("globalWrite",))             # e.g. _CALLS.append(1) on a module-level list
+                pre.append(("write", cx.var(nm)))
                 return []
         # calls to other translated aotools functions: inline
         target = None
@@ -224,9 +314,12 @@ class Translator:
                         "ValueError", "Exception", "TypeError", "RuntimeError", "NotImplementedError", "format",
                         "gamma", "kv", "jit", "slice", "dict", "set", "super", "getattr", "hasattr", "id", "open"):
                 return []
-            # unknown plain function (imported helper, e.g. from scipy): fresh result, arguments not written
-            cx.notes.append("unknown function %s treated as pure/fresh" % name)
-            return []
+            if self.imported.get(cx.module, {}).get(name, "").split(".")[0] in LIBRARY_ROOTS or \
+                    cx.local_imports.get(name, "").split(".")[0] in LIBRARY_ROOTS:
+                return []                                    # library helper imported by name (scipy.special.gamma, …): fresh
+            # unknown callable (a local lambda / nested function / something passed in): its result may alias its arguments
+            cx.notes.append("unknown function %s: result may alias its arguments" % name)
+            return [s_ for a in argsrc for s_ in a]
         cx.notes.append("unclassified call")
         return [s for a in argsrc for s in a]
 
@@ -295,8 +388,9 @@ class Translator:
                     out.append(("write", p))
             else:
                 nm = (self_prefix(pfx, cx) if b.startswith("self.") else pfx) + b
-                if nm not in cx.vars and not b.startswith("self.") and b in self.module_names.get(cx.module, ()):
-                    out.append(("globalWrite",))
+                if nm not in cx.vars and not b.startswith("self.") and \
+                        (b in self.module_names.get(cx.module, ()) or b in self.module_funcs.get(cx.module, ())):
+                    out.append(("globalWrite",))             # store through a module-level object / function attribute
                 v = cx.var(nm)
                 out.append(("write", v))
                 # NOTE: storing into an ndarray copies values; a Python list/dict would keep a reference to what was
@@ -380,10 +474,20 @@ class Translator:
                     if isinstance(sub, ast.expr):
                         self.sources(sub, cx, pre, pfx, depth)
                 seq += pre
-            elif isinstance(st, (ast.Pass, ast.Break, ast.Continue, ast.Import, ast.ImportFrom, ast.Nonlocal)):
+            elif isinstance(st, ast.ImportFrom):
+                for al in st.names:
+                    cx.local_imports[al.asname or al.name] = st.module or ""
+            elif isinstance(st, (ast.Pass, ast.Break, ast.Continue, ast.Import, ast.Nonlocal)):
                 pass
-            elif isinstance(st, (ast.FunctionDef, ast.ClassDef)):
-                cx.notes.append("nested definition %s ignored" % st.name)
+            elif isinstance(st, ast.FunctionDef):
+                # a nested function: conservatively its body is assumed to run (its writes to captured variables count);
+                # its own parameters are fresh
+                for a in st.args.args:
+                    seq.append(("assign", cx.var(pfx + a.arg), []))
+                inner = []
+                seq.append(self.block(st.body, cx, pfx, depth, inner))
+            elif isinstance(st, ast.ClassDef):
+                cx.notes.append("nested class %s ignored" % st.name)
             else:
                 cx.notes.append("unclassified statement %s" % type(st).__name__)
                 for p in range(len(cx.params)):
@@ -487,18 +591,35 @@ def flatten(ir):
     raise ValueError(kind)
 
 
-def collect(repo=REPO):
+RNG_CONSTRUCTORS = {"default_rng", "RandomState", "Generator", "Random", "SystemRandom"}
+
+
+def collect(repo=REPO, modules=None):
     funcs, module_names, mro = {}, {}, {}
-    for mod in MODULES:
+    collect.imported, collect.module_objects, collect.module_funcs = {}, {}, {}
+    for mod in (modules if modules is not None else list_modules(repo)):
         path = os.path.join(repo, mod)
         tree = ast.parse(open(path).read(), path)
         mname = mod[:-3].replace("/", ".")
-        names = set()
+        names, imported, objects, mfuncs = set(), {}, set(), set()
         for st in tree.body:
+            if isinstance(st, ast.ImportFrom):
+                for al in st.names:
+                    imported[al.asname or al.name] = st.module or ""
+            if isinstance(st, ast.Import):
+                for al in st.names:
+                    imported[(al.asname or al.name).split(".")[0]] = al.name
+            if isinstance(st, ast.FunctionDef):
+                mfuncs.add(st.name)
             if isinstance(st, ast.Assign):
                 for t in st.targets:
                     if isinstance(t, ast.Name):
                         names.add(t.id)
+                        v = st.value
+                        # module-level generator objects and mutable containers are hidden state when used from a function
+                        if isinstance(v, ast.Call) and ((isinstance(v.func, ast.Attribute) and v.func.attr in RNG_CONSTRUCTORS) or
+                                                        (isinstance(v.func, ast.Name) and v.func.id in RNG_CONSTRUCTORS)):
+                            objects.add(t.id)
             if isinstance(st, ast.FunctionDef):
                 funcs["%s.%s" % (mname, st.name)] = (st, mod, None)
             if isinstance(st, ast.ClassDef):
@@ -508,6 +629,7 @@ def collect(repo=REPO):
                     if isinstance(sub, ast.FunctionDef):
                         funcs["%s.%s" % (cq, sub.name)] = (sub, mod, cq)
         module_names[mod] = names
+        collect.imported[mod], collect.module_objects[mod], collect.module_funcs[mod] = imported, objects, mfuncs
     for c, l in list(mro.items()):      # one more level of inheritance is all the library uses
         for b in list(l[1:]):
             l += [x for x in mro.get(b, [])[1:] if x not in l]
@@ -521,16 +643,17 @@ def public(q, funcs):
     return not cls.split(".")[-1].startswith("_") and (not fd.name.startswith("_") or fd.name in ("__init__", "__repr__"))
 
 
-def translate(repo=REPO):
-    funcs, module_names, mro = collect(repo)
+def translate(repo=REPO, modules=None, findings=True):
+    funcs, module_names, mro = collect(repo, modules)
     tr = Translator(funcs, module_names)
     tr.mro = mro
+    tr.imported, tr.module_objects, tr.module_funcs = collect.imported, collect.module_objects, collect.module_funcs
     tr.by_any = {}
     for q, (fd, mod, cls) in funcs.items():
         if cls is None:
             tr.by_any.setdefault(fd.name, q)
     try:
-        known = json.load(open(os.path.join(VERIF, "findings", "C20.json")))["findings"]
+        known = json.load(open(os.path.join(VERIF, "findings", "C20.json")))["findings"] if findings else []
     except FileNotFoundError:
         known = []
     known_impure = {e["function"] for e in known if e.get("status") == "open" and e.get("function")}
@@ -570,11 +693,29 @@ def translate(repo=REPO):
     return src, meta
 
 
+def corpus():
+    """the regression corpus of impure / pure idioms (harness/t2_corpus): translated like the library, as a separate Lean
+    module; functions m<k>_… must be flagged, ok<k>_… accepted (theorems in Props/C20)"""
+    src, meta = translate(os.path.join(HERE, "t2_corpus"), modules=["aotools_like/corpus.py"], findings=False)
+    meta.pop("__checks__")
+    names = sorted(k for k in meta)
+    out = src.replace("namespace AoVerif.Gen", "namespace AoVerif.GenCorpus").replace("end AoVerif.Gen", "end AoVerif.GenCorpus")
+    out = out.replace("GENERATED by harness/translate_effects.py from /repo on every run",
+                      "GENERATED by harness/translate_effects.py from harness/t2_corpus on every run")
+    imp = [n for n in names if n.split(".")[-1].startswith("m")]
+    pur = [n for n in names if n.split(".")[-1].startswith("ok")]
+    tail = ("\nnamespace AoVerif.GenCorpus\n\ndef mustFlag : List String :=\n  [%s]\n\ndef mustAccept : List String :=\n  [%s]\n\nend AoVerif.GenCorpus\n"
+            % (", ".join('"%s"' % n for n in imp), ", ".join('"%s"' % n for n in pur)))
+    return out + tail, meta
+
+
 def main():
     from .translate_formulas import write_if_changed
     src, meta = translate()
     write_if_changed(os.path.join(VERIF, "lean/AoVerif/Gen/Effects.lean"), src)
     write_if_changed(os.path.join(VERIF, "lean/AoVerif/Gen/EffectsChecks.lean"), meta.pop("__checks__"))
+    csrc, _ = corpus()
+    write_if_changed(os.path.join(VERIF, "lean/AoVerif/Gen/EffectsCorpus.lean"), csrc)
     write_if_changed(os.path.join(HERE, "_gen/effects.json"), json.dumps(meta, indent=1, sort_keys=True))
 
 
